@@ -32,6 +32,8 @@ use std::time::Instant;
 
 const DEFAULT_SEED: u64 = 20260927;
 const CHUNK: u64 = 256;
+/// watchdog: a single run (or a replay) that has not returned after this long is a hang
+const HANG_MS: u64 = 10_000;
 
 #[derive(Clone)]
 struct Opts {
@@ -211,6 +213,8 @@ struct Batch {
     samples: Vec<(u64, String)>,
     timed_out: bool,
     runs_done: u64,
+    /// lowest run index on which a worker was stuck longer than HANG_MS
+    hang_run: Option<u64>,
 }
 
 fn mix(run: u64, d: u64) -> u64 {
@@ -238,8 +242,10 @@ fn run_batch(o: &Opts) -> Batch {
         "C12" => Some(Mode::C12),
         _ => None,
     };
+    let beats: Arc<Vec<(AtomicU64, AtomicU64)>> = Arc::new((0..o.workers).map(|_| (AtomicU64::new(u64::MAX), AtomicU64::new(0))).collect());
     let mut handles = Vec::new();
-    for _w in 0..o.workers {
+    for wid in 0..o.workers {
+        let beats = beats.clone();
         let next = next.clone();
         let stop = stop.clone();
         let timed_out = timed_out.clone();
@@ -271,6 +277,8 @@ fn run_batch(o: &Opts) -> Batch {
                 let lo = c * CHUNK;
                 let hi = ((c + 1) * CHUNK).min(o.runs);
                 for run in lo..hi {
+                    beats[wid].1.store(t0.elapsed().as_millis() as u64, Ordering::Relaxed);
+                    beats[wid].0.store(run, Ordering::Relaxed);
                     st.runs += 1;
                     done += 1;
                     match mode {
@@ -287,10 +295,10 @@ fn run_batch(o: &Opts) -> Batch {
                             }
                             if let Some(f) = g.failure {
                                 if f.clause.property() == mode {
-                                    if qf.len() < 24 {
+                                    if qf.len() < 8 {
                                         qf.push(QFail { run, case: g.case, failure: f });
                                     }
-                                    if nfails.fetch_add(1, Ordering::Relaxed) > 400 {
+                                    if nfails.fetch_add(1, Ordering::Relaxed) > 48 {
                                         stop.store(true, Ordering::Relaxed);
                                     }
                                 } else if mode == Mode::C04 {
@@ -314,10 +322,10 @@ fn run_batch(o: &Opts) -> Batch {
                                 ));
                             }
                             if g.failure.is_some() {
-                                if rf.len() < 24 {
+                                if rf.len() < 8 {
                                     rf.push(RFail { run, gen: g });
                                 }
-                                if nfails.fetch_add(1, Ordering::Relaxed) > 400 {
+                                if nfails.fetch_add(1, Ordering::Relaxed) > 48 {
                                     stop.store(true, Ordering::Relaxed);
                                 }
                             }
@@ -325,6 +333,7 @@ fn run_batch(o: &Opts) -> Batch {
                     }
                 }
             }
+            beats[wid].0.store(u64::MAX, Ordering::Relaxed);
             let mut m = merged.lock().unwrap();
             m.0.merge(st);
             m.1.extend(qf);
@@ -334,13 +343,44 @@ fn run_batch(o: &Opts) -> Batch {
             m.5 += done;
         }));
     }
-    for h in handles {
-        if h.join().is_err() {
-            eprintln!("simcheck: worker thread died");
-            std::process::exit(2);
+    // monitor: wait for the workers; a worker stuck on one run for longer than HANG_MS is a hang
+    let mut hang_run: Option<u64> = None;
+    loop {
+        if handles.iter().all(|h| h.is_finished()) {
+            break;
+        }
+        std::thread::sleep(std::time::Duration::from_millis(50));
+        let now = t0.elapsed().as_millis() as u64;
+        for b in beats.iter() {
+            let run = b.0.load(Ordering::Relaxed);
+            let since = b.1.load(Ordering::Relaxed);
+            if run != u64::MAX && now.saturating_sub(since) > HANG_MS {
+                hang_run = Some(hang_run.map_or(run, |h| h.min(run)));
+            }
+        }
+        if hang_run.is_some() {
+            stop.store(true, Ordering::Relaxed);
+            // give the healthy workers a moment to finish their current chunk
+            let deadline = Instant::now() + std::time::Duration::from_secs(5);
+            while Instant::now() < deadline && handles.iter().filter(|h| !h.is_finished()).count() > 1 {
+                std::thread::sleep(std::time::Duration::from_millis(50));
+            }
+            break;
         }
     }
-    let m = Arc::try_unwrap(merged).ok().unwrap().into_inner().unwrap();
+    if hang_run.is_none() {
+        for h in handles {
+            if h.join().is_err() {
+                eprintln!("simcheck: worker thread died");
+                std::process::exit(2);
+            }
+        }
+    }
+    // with a hang the stuck worker still holds a reference: take what the others merged
+    let m = {
+        let mut g = merged.lock().unwrap();
+        std::mem::replace(&mut *g, (Stats::new(), Vec::new(), Vec::new(), 0, Vec::new(), 0))
+    };
     let (stats, mut qfails, mut rfails, digest, mut samples, runs_done) = m;
     qfails.sort_by_key(|f| f.run);
     rfails.sort_by_key(|f| f.run);
@@ -356,6 +396,7 @@ fn run_batch(o: &Opts) -> Batch {
         samples,
         timed_out: timed_out.load(Ordering::Relaxed),
         runs_done,
+        hang_run,
     }
 }
 
@@ -486,23 +527,33 @@ fn do_replay(path: &str) -> i32 {
     };
     match r {
         replay::Replay::Quire { property, case, clause, .. } => {
-            let mut st = Stats::new();
             println!("replaying {} history of {} events on {}", property, case.events.len(), case.qt.name());
-            match quire::run_case(&case, &mut st).0 {
-                Outcome::Ok => {
+            let c2 = case.clone();
+            let mode = if property == "C12" { Mode::C12 } else { Mode::C04 };
+            let outcome = with_timeout(HANG_MS, move || {
+                let mut st = Stats::new();
+                quire::run_case(&c2, mode, &mut st).0
+            });
+            match outcome {
+                None => {
+                    println!("REPLAY-FAIL clause=hang step={} observed={}", case.events.len().saturating_sub(1), HANG_OBSERVED);
+                    println!("VIOLATION property={property} replay={path}");
+                    1
+                }
+                Some(Outcome::Ok) => {
                     println!("REPLAY-PASS property={property} (recorded clause {} no longer fails)", clause.name());
                     0
                 }
-                Outcome::Invalid(i, m) => {
+                Some(Outcome::Invalid(i, m)) => {
                     eprintln!("simcheck: replay file is not a valid history at event {i}: {m}");
                     2
                 }
-                Outcome::Fail(f) => {
+                Some(Outcome::Fail(f)) => {
                     println!("REPLAY-FAIL clause={} step={} observed={}", f.clause.name(), f.step, f.observed);
                     println!("  event: {}", case.events.get(f.step).map(|e| e.text()).unwrap_or_else(|| "(initial state)".into()));
                     println!("  expected: {}", f.expected);
                     println!("  observed: {}", f.observed);
-                    let pid = f.clause.property().id();
+                    let pid = if f.clause == Clause::Hang { property.clone() } else { f.clause.property().id().to_string() };
                     println!("VIOLATION property={pid} replay={path}");
                     1
                 }
@@ -510,16 +561,22 @@ fn do_replay(path: &str) -> i32 {
         }
         replay::Replay::Rng { case, clause, .. } => {
             println!("replaying C19 script of {} words on {}", case.words.len(), case.qt.pname());
-            match rngsim::run_rcase(&case).0 {
-                rngsim::ROutcome::Ok => {
+            let c2 = case.clone();
+            match with_timeout(HANG_MS, move || rngsim::run_rcase(&c2).0) {
+                None => {
+                    println!("REPLAY-FAIL clause=hang step={} observed={}", case.nsamples.saturating_sub(1), HANG_OBSERVED);
+                    println!("VIOLATION property=C19 replay={path}");
+                    1
+                }
+                Some(rngsim::ROutcome::Ok) => {
                     println!("REPLAY-PASS property=C19 (recorded clause {} no longer fails)", clause.name());
                     0
                 }
-                rngsim::ROutcome::Invalid(m) => {
+                Some(rngsim::ROutcome::Invalid(m)) => {
                     eprintln!("simcheck: replay script does not cover the samples: {m}");
                     2
                 }
-                rngsim::ROutcome::Fail(f) => {
+                Some(rngsim::ROutcome::Fail(f)) => {
                     println!("REPLAY-FAIL clause={} step={} observed={}", f.clause.name(), f.sample, f.observed);
                     println!("VIOLATION property=C19 replay={path}");
                     1
@@ -539,6 +596,163 @@ fn fresh_process_replay(path: &str, clause: &str, step: usize, observed: &str) -
     } else {
         Err(format!("fresh-process replay did not reproduce (exit {:?}); wanted `{want}`; got:\n{text}", out.status.code()))
     }
+}
+
+/// Run `f` on its own thread; None if it has not returned after `ms` (the thread is left behind —
+/// the process exits soon after).
+fn with_timeout<T: Send + 'static>(ms: u64, f: impl FnOnce() -> T + Send + 'static) -> Option<T> {
+    let (tx, rx) = std::sync::mpsc::channel();
+    std::thread::spawn(move || {
+        let _ = tx.send(f());
+    });
+    rx.recv_timeout(std::time::Duration::from_millis(ms)).ok()
+}
+
+/// `simcheck trace <prop> --seed S --run R --out FILE`: regenerate one run, writing every event /
+/// served word to FILE *before* it is applied. Used by the watchdog on a run that never returns.
+fn cmd_trace(args: &[String]) -> i32 {
+    let prop = match args.first() {
+        Some(p) => p.clone(),
+        None => return 2,
+    };
+    let mut seed = DEFAULT_SEED;
+    let mut run = 0u64;
+    let mut out = String::new();
+    let mut it = args[1..].iter();
+    while let Some(a) = it.next() {
+        match a.as_str() {
+            "--seed" => seed = it.next().and_then(|v| v.parse().ok()).unwrap_or(seed),
+            "--run" => run = it.next().and_then(|v| v.parse().ok()).unwrap_or(0),
+            "--out" => out = it.next().cloned().unwrap_or_default(),
+            _ => {}
+        }
+    }
+    let file = match std::fs::File::create(&out) {
+        Ok(f) => f,
+        Err(e) => {
+            eprintln!("simcheck: cannot create {out}: {e}");
+            return 2;
+        }
+    };
+    let mut st = Stats::new();
+    match prop.as_str() {
+        "C04" | "C12" => {
+            let mode = if prop == "C04" { Mode::C04 } else { Mode::C12 };
+            let mut f = file;
+            let _ = gen::generate_and_run_traced(seed, run, mode, &mut st, Some(&mut f));
+        }
+        _ => {
+            let outcomes = [Bitmap::new(256), Bitmap::new(65536), Bitmap::new(64)];
+            let _ = rngsim::generate_and_run_traced(seed, run, &mut st, &outcomes, Some(Box::new(file)));
+        }
+    }
+    0
+}
+
+const HANG_OBSERVED: &str = "no return within 10 s";
+
+/// A worker was stuck on run `run`: regenerate it in a child process with tracing, kill the child,
+/// turn the partial trace into a replay file, confirm it in a fresh process, report it.
+fn handle_hang(o: &Opts, run: u64) -> i32 {
+    let _ = std::fs::create_dir_all(&o.replays);
+    let tmp = format!("{}/{}-{}-{}.trace.tmp", o.replays, o.prop, o.seed, run);
+    let exe = match std::env::current_exe() {
+        Ok(e) => e,
+        Err(_) => return 2,
+    };
+    let mut child = match std::process::Command::new(exe)
+        .args(["trace", &o.prop, "--seed", &o.seed.to_string(), "--run", &run.to_string(), "--out", &tmp])
+        .spawn()
+    {
+        Ok(c) => c,
+        Err(e) => {
+            eprintln!("simcheck: cannot spawn the trace child: {e}");
+            return 2;
+        }
+    };
+    let t0 = Instant::now();
+    let mut exited = false;
+    while t0.elapsed().as_millis() < (HANG_MS + 5_000) as u128 {
+        if let Ok(Some(_)) = child.try_wait() {
+            exited = true;
+            break;
+        }
+        std::thread::sleep(std::time::Duration::from_millis(50));
+    }
+    if exited {
+        eprintln!("simcheck: run {run} exceeded the watchdog in the batch but returns in a fresh process: harness error (overloaded machine?), no verdict");
+        let _ = std::fs::remove_file(&tmp);
+        return 2;
+    }
+    let _ = child.kill();
+    let _ = child.wait();
+    let text = std::fs::read_to_string(&tmp).unwrap_or_default();
+    let _ = std::fs::remove_file(&tmp);
+    let path = format!("{}/{}-{}-{}.replay", o.replays, o.prop, o.seed, run);
+    let meta = replay::Meta { seed: o.seed, run, profile: o.profile.clone(), original_events: 0 };
+    let mut lines = text.lines();
+    let qt = lines.next().and_then(|l| l.strip_prefix("type ")).and_then(posit_ref::QT::parse);
+    let qt = match qt {
+        Some(q) => q,
+        None => {
+            eprintln!("simcheck: empty trace for hanging run {run}");
+            return 2;
+        }
+    };
+    if o.prop == "C19" {
+        let entry = lines.next().and_then(|l| l.strip_prefix("entry ")).and_then(rngsim::Entry::parse).unwrap_or(rngsim::Entry::Gen);
+        let hdr_n: usize = lines.next().and_then(|l| l.strip_prefix("nsamples ")).and_then(|v| v.parse().ok()).unwrap_or(1);
+        let mut words = Vec::new();
+        let mut markers = 0usize;
+        for l in lines {
+            if l.trim() == "sample" {
+                markers += 1;
+            } else if let Ok(w) = rngsim::RCase::parse_words(l) {
+                words.extend(w);
+            }
+        }
+        let nsamples = if entry == rngsim::Entry::Iter { hdr_n } else { markers.max(1) };
+        let case = rngsim::RCase { qt, entry, nsamples, words };
+        let f = rngsim::RFailure { clause: rngsim::RClause::Hang, sample: nsamples - 1, observed: HANG_OBSERVED.into() };
+        if replay::write_rng(&path, &meta, &case, &f).is_err() {
+            return 2;
+        }
+        if let Err(e) = fresh_process_replay(&path, "hang", nsamples - 1, HANG_OBSERVED) {
+            eprintln!("simcheck: {e}");
+            return 2;
+        }
+        println!("violation: run {run}: the sampler did not return within {} s after {} words ({} samples started); not minimised", HANG_MS / 1000, case.words.len(), nsamples);
+        println!("  words: {}", case.words_text());
+    } else {
+        let init_via: u8 = lines.next().and_then(|l| l.strip_prefix("init_via ")).and_then(|v| v.parse().ok()).unwrap_or(0);
+        let mut events = Vec::new();
+        for l in lines {
+            match Ev::parse(l) {
+                Ok(e) => events.push(e),
+                Err(_) => break, // a torn last line
+            }
+        }
+        if events.is_empty() {
+            eprintln!("simcheck: hanging run {run} left no event in its trace");
+            return 2;
+        }
+        let case = Case { qt, init_via, events };
+        let step = case.events.len() - 1;
+        let f = Failure { clause: Clause::Hang, step, expected: "the event and the observers after it return".into(), observed: HANG_OBSERVED.into() };
+        if replay::write_quire(&path, &o.prop, &meta, &case, &f).is_err() {
+            return 2;
+        }
+        if let Err(e) = fresh_process_replay(&path, "hang", step, HANG_OBSERVED) {
+            eprintln!("simcheck: {e}");
+            return 2;
+        }
+        println!("violation: run {run}: event {step} (or an observer after it) did not return within {} s; history not minimised", HANG_MS / 1000);
+        for (n, e) in case.events.iter().enumerate() {
+            println!("  [{n}] {}", e.text());
+        }
+    }
+    println!("VIOLATION property={} replay={}", o.prop, path);
+    1
 }
 
 // ---------------------------------------------------------------------------------------
@@ -566,16 +780,32 @@ fn cmd_run(o: &Opts) -> i32 {
         eprintln!("simcheck: wall-clock safety cap hit after {} of {} runs: harness error, no verdict", b.runs_done, o.runs);
         return 2;
     }
+    if let Some(run) = b.hang_run {
+        let code = handle_hang(o, run);
+        if code == 1 {
+            write_evidence(o, &b, 1, &[], None);
+        }
+        return code;
+    }
     let known = load_known(&o.known);
     let mut known_hits: Vec<String> = Vec::new();
     let mut violation: Option<String> = None;
     let _ = std::fs::create_dir_all(&o.replays);
 
     for qf in &b.qfails {
-        let mut sh = minimise::Shrinker::new(qf.failure.clause);
-        let (case, f) = match sh.minimise(&qf.case) {
-            Some(x) => x,
+        let (c0, cl0) = (qf.case.clone(), qf.failure.clause);
+        let mode0 = if o.prop == "C12" { Mode::C12 } else { Mode::C04 };
+        let shrunk = with_timeout(90_000, move || {
+            let mut sh = minimise::Shrinker::new(cl0, mode0);
+            sh.minimise(&c0).map(|(c, f)| (c, f, sh.evals))
+        });
+        let (case, f, evals) = match shrunk {
+            Some(Some(x)) => x,
             None => {
+                println!("note: minimisation of run {} did not finish in 90 s; reporting the unminimised history", qf.run);
+                (qf.case.clone(), qf.failure.clone(), 0)
+            }
+            Some(None) => {
                 eprintln!(
                     "simcheck: run {} failed clause {} during generation but its recorded history does not fail on the replay path: harness error",
                     qf.run,
@@ -607,7 +837,7 @@ fn cmd_run(o: &Opts) -> i32 {
             qf.run,
             qf.case.events.len(),
             case.events.len(),
-            sh.evals,
+            evals,
             f.clause.name(),
             f.step
         );
@@ -623,7 +853,14 @@ fn cmd_run(o: &Opts) -> i32 {
     if violation.is_none() {
         for rf in &b.rfails {
             let f0 = rf.gen.failure.clone().unwrap();
-            let (case, f) = rngsim::minimise(&rf.gen, f0.clause);
+            let (g0, cl0) = (rf.gen.clone(), f0.clause);
+            let (case, f) = match with_timeout(90_000, move || rngsim::minimise(&g0, cl0)) {
+                Some(x) => x,
+                None => {
+                    println!("note: minimisation of run {} did not finish in 90 s; reporting the unminimised script", rf.run);
+                    (rf.gen.case.clone(), f0.clone())
+                }
+            };
             let sig = rng_signature(&case, &f);
             if let Some(k) = known.iter().find(|k| k.property == o.prop && k.signature == sig) {
                 if !known_hits.contains(&sig) {
@@ -753,6 +990,7 @@ fn main() {
                 2
             }
         },
+        Some("trace") => cmd_trace(&args[1..]),
         Some("replay") => match args.get(1) {
             Some(p) => do_replay(p),
             None => {
